@@ -312,7 +312,12 @@ Section WorldRun.
   Definition run_world (ops : list (list N)) : list (list N) :=
     let '(outs, f) := steps init_world ops in
     match f with
-    | Some wd => outs ++ [99 :: wr_delivered (w_w wd)]
+    | Some wd =>
+        (* group 98: the bytes once the writer is dropped / unwrapped (= flushed); group 99: before *)
+        outs ++ [match wr_flush (w_w wd) with
+                 | Ok (_, w') => 98 :: 0 :: wr_delivered w'
+                 | _ => [98; 2] end;
+                 99 :: wr_delivered (w_w wd)]
     | None => outs
     end.
 End WorldRun.
